@@ -464,6 +464,24 @@ def run(ctx: Context) -> None:
                         has_nonempty = True
                     if pol_ and isinstance(t_, ast.Call) and callee(ctx, ep, t_) == 'numpy.any' and len(t_.args) == 1 and _lookup_mask(ctx, ep, flow, t_.args[0], idx_c) == 'none':
                         has_nonempty = True
+                    # ... or "fewer lookups hit than were made": len(<the lookups that are not None>) < len(<lookups>)
+                    if pol_ and isinstance(t_, ast.Compare) and len(t_.ops) == 1 and isinstance(t_.ops[0], (ast.Lt, ast.Gt, ast.NotEq)):
+                        a_, b_ = t_.left, t_.comparators[0]
+                        if isinstance(t_.ops[0], ast.Gt):
+                            a_, b_ = b_, a_
+
+                        def _len_of(e_):
+                            e_ = flow.resolve(e_)
+                            return e_.args[0] if isinstance(e_, ast.Call) and dotted(e_.func) == 'len' and len(e_.args) == 1 else None
+                        for few, many in ((a_, b_), (b_, a_)) if isinstance(t_.ops[0], ast.NotEq) else ((a_, b_),):
+                            fx, mx = _len_of(few), _len_of(many)
+                            if fx is None or mx is None or flow.canon(mx) != idx_c:
+                                continue
+                            fx = flow.resolve(fx)
+                            while isinstance(fx, ast.Call) and dotted(fx.func) in ('list', 'tuple') and len(fx.args) == 1:
+                                fx = flow.resolve(fx.args[0])
+                            if _lookup_positions(ctx, ep, flow, fx, idx_c) == 'notnone' or _none_filter(flow, fx, idx_c)[0]:
+                                has_nonempty = True
                 has_policy = has_policy or any(pol_ and isinstance(t_, ast.Compare) and isinstance(t_.ops[0], ast.Eq) and flow.canon(t_.left) == ('param', 'missing_points')
                                                and const_value(t_.comparators[0], None) == 'error' for t_, pol_ in _pc05(ep, rs))
                 ok_err_guard = has_policy and has_nonempty
@@ -475,6 +493,8 @@ def run(ctx: Context) -> None:
         sel = [c for c in method_calls(ep, 'select_indexes')]
         ctx.need('R05.2', len(sel) == 1 and sel[0].args, f"expected one select_indexes call", ep)
         sl = flow.resolve(sel[0].args[0])
+        while isinstance(sl, ast.Call) and dotted(sl.func) in ('list', 'tuple') and len(sl.args) == 1 and not sl.keywords:
+            sl = flow.resolve(sl.args[0])       # a list made of the same items in the same order
         ok_f, tgt = _none_filter(flow, sl, idx_c)
         ok_elt = ok_f and isinstance(sl.elt, ast.Attribute) and sl.elt.attr == 'index' and isinstance(sl.elt.value, ast.Name) \
             and sl.elt.value.id == tgt[1].id
